@@ -1419,7 +1419,9 @@ type srvCase struct {
 }
 
 var srvObjects = []string{"dir0700", "dir0755", "dir0750", "dir0711", "dir0600", "dir0500", "dir0777", "dir01700", "dir02700", "symlink-to-dir0700", "symlink-dangling",
-	"file0700", "file0600", "nothing", "fifo0700", "dir0700-one-subdir", "dir0700-two-subdirs", "dir0700-with-file", "dir0700-uid1", "dir0700-uid65534", "dir0700-uid-unknown", "dir0755-uid1"}
+	"file0700", "file0600", "nothing", "fifo0700", "dir0700-one-subdir", "dir0700-two-subdirs", "dir0700-with-file", "dir0700-uid1", "dir0700-uid65534", "dir0700-uid-unknown", "dir0755-uid1",
+	// other file types whose S_IFMT value shares bits with S_IFDIR (socket 0140000, block device 0060000) or not (char device)
+	"socket0700", "blockdev0700", "chardev0700"}
 
 type srvObs struct {
 	path    string
@@ -1433,6 +1435,9 @@ type srvObs struct {
 	user    string
 	nilRet  bool
 }
+
+// errSkipObject: the sandbox cannot create this kind of object (no CAP_MKNOD, ...); the case is skipped and counted.
+var errSkipObject = errors.New("object kind not creatable here")
 
 func placeObject(w *world, path, obj string) error {
 	mkdir := func(mode os.FileMode) error {
@@ -1476,6 +1481,34 @@ func placeObject(w *world, path, obj string) error {
 		return nil
 	case "fifo0700":
 		return syscall.Mkfifo(path, 0o700)
+	case "socket0700":
+		// a bound UNIX socket leaves a socket inode at the path; its name may be too long for sun_path,
+		// so bind under a short name in the same directory and rename
+		short := filepath.Join(filepath.Dir(path), "s"+strconv.Itoa(os.Getpid()))
+		os.Remove(short)
+		fd, err := syscall.Socket(syscall.AF_UNIX, syscall.SOCK_STREAM, 0)
+		if err != nil {
+			return errSkipObject
+		}
+		defer syscall.Close(fd)
+		if err := syscall.Bind(fd, &syscall.SockaddrUnix{Name: short}); err != nil {
+			return errSkipObject
+		}
+		if err := os.Rename(short, path); err != nil {
+			os.Remove(short)
+			return err
+		}
+		return os.Chmod(path, 0o700)
+	case "blockdev0700":
+		if err := syscall.Mknod(path, syscall.S_IFBLK|0o700, 7<<8|0); err != nil {
+			return errSkipObject // needs CAP_MKNOD
+		}
+		return os.Chmod(path, 0o700)
+	case "chardev0700":
+		if err := syscall.Mknod(path, syscall.S_IFCHR|0o700, 1<<8|3); err != nil {
+			return errSkipObject
+		}
+		return os.Chmod(path, 0o700)
 	case "dir0700-one-subdir":
 		if err := mkdir(0o700); err != nil {
 			return err
@@ -1583,6 +1616,10 @@ func runServer(w *world, sc srvCase) (o srvObs, err error) {
 
 func addServer(c *core.Ctx, w *world, sc srvCase) {
 	o, err := runServer(w, sc)
+	if err != nil && strings.Contains(err.Error(), errSkipObject.Error()) {
+		c.Count("srv-object-not-creatable-here-" + sc.Obj)
+		return
+	}
 	if err != nil {
 		c.OracleFail("server-harness", fmt.Sprintf("%v: %v", sc, err), sc)
 		return
